@@ -302,6 +302,8 @@ func boundsHandler(raw json.RawMessage) map[string]any {
 			gg := buildNode(g, leafSalt(i, len(c.Pre)+1, g))
 			steps = append(steps, boundsProj(func() *geom.Bounds { b.Extend(gg); return b }))
 		}
+		// the layout read off the box right before Set / SetCoords (recorded: the projection of the corners below follows it)
+		out["lset"] = layoutName(b.Layout())
 		ix := dimIndex(b.Layout())
 		mn, mx := make([]float64, len(ix)), make([]float64, len(ix))
 		for k, d := range ix {
